@@ -326,7 +326,7 @@ def streams_for(pid, r, tier):
     if pid == "C18":
         return parse_all(r, tier, big=False) + big_light(r)
     if pid == "C19":
-        out = parse_custom(r, tier, 1.0) + build_stream(r, tier, ("custom", "unknown"))
+        out = streams.helper_stream(r, tier) + parse_custom(r, tier, 1.0) + build_stream(r, tier, ("custom", "unknown"))
         out += [(q, m) for q, m in build_stream(r, tier, ("compound",)) if "custom" in q or "unknown" in q]
         return out
     if pid == "C20":
@@ -392,7 +392,7 @@ def project(pid, t, meta):
         return out
     if pid in ("C07", "C14", "C19", "C20", "C17"):
         if op != "build":
-            if pid == "C19" and op in ("parse", "pad"):
+            if pid == "C19" and op in ("parse", "pad", "helper"):
                 return dict(t)
             if pid == "C14" and op == "parse":
                 return {k: v for k, v in t.items() if k in ("res", "variant", "version", "type", "count", "length", "padding")}
